@@ -99,6 +99,7 @@ def run_check(prop, tier, seed):
     items = []
     jobs = []
     job_items = []
+    ob_axioms = {}
     functions = []
     undecided = []
     assumptions = set(getattr(m, 'TRUSTED', []))
@@ -160,6 +161,7 @@ def run_check(prop, tier, seed):
             it.fr = fr
             items.append(it)
             smt2 = obligation_smt2(fr.axioms + extras, o, {k: v.z for k, v in terms.items()})
+            ob_axioms[o.id] = fr.axioms + extras
             it.smt_head = smt2[:600]
             jobs.append(smt2)
             job_items.append(it)
@@ -237,6 +239,14 @@ def run_check(prop, tier, seed):
             if r.get('disagreement'):
                 cross['disagreements'] += 1
                 failures.append('%s: %s' % (it.id, r['reason']))
+    # hypotheses guard: an `unsat` whose path condition alone is refuted by z3 but not by cvc5 is withdrawn
+    from .smt import hypotheses_guard
+    unsat_items = [it for it in job_items if it.result == 'unsat' and it.ob is not None]
+    withdrawn, hyp_stats = hypotheses_guard(lambda ob: ob_axioms[ob.id], [it.ob for it in unsat_items])
+    for it in unsat_items:
+        if it.ob.id in withdrawn:
+            it.result = 'unknown'
+            it.reason = withdrawn[it.ob.id]
     # refutation search for obligations neither solver decided: a candidate input from a
     # weakened query or from the contract's witness library counts only if the real code,
     # run on it, violates the executable contract (replay verdict `confirmed`)
@@ -423,6 +433,7 @@ def run_check(prop, tier, seed):
             'solver_wall_s': round(solver_wall, 2),
             'per_query_timeout_s': timeout,
             'solver_cross_check': cross if tier == 'thorough' else 'thorough tier only',
+            'hypotheses_guard': hyp_stats,
             'vacuity_covers': {'checked': len(covers), 'reachable': sum(1 for c in covers if c.result == 'sat'),
                                'undecided': sum(1 for c in covers if c.result == 'unknown')},
             'known_finding_obligations': known_obls,
